@@ -16,7 +16,7 @@ TIE = ('tie to the code = (i) Gen/*.lean re-extracted from the build of the curr
        'translator and drivers, g++/libstdc++ semantics of mirrored operations')
 
 prop('C01', 'proof',
-     'Lean theorems about the move-generator model (Props/C01.lean). PROVED EXACT for every Spec.wf position: the king moves (C01_king_moves_exact: the generator emits k->t iff that king step is legal '
+     'Lean theorems about the move-generator model (Props/C01.lean). PROVED for every Spec.wf position: NO MOVE APPEARS TWICE (C01_no_duplicates: the generated list is duplicate-free — groups told apart by piece kind on the origin and pinned-ness, pawn groups by offset and promotion, en-passant by its empty target, pins on different rays name different squares via kernel-evaluated bit-scan tables) and every generated move is a castling code or the code of an own piece\'s move with promotion exactly on the end ranks (C01_move_shape); PROVED EXACT: the king moves (C01_king_moves_exact: the generator emits k->t iff that king step is legal '
      'under the rules; forbidden squares = attacked with the king x-rayed, C01_forbidden_squares), the in-check test (C01_in_check_test), and CASTLING (C01_castling_exact: each of the four castling tests '
      'holds iff the rules list that castling move, every listed castling move survives the legality filter, and the code is emitted, C01_castling_emitted; rests on "lifting an unattacked king uncovers nothing", '
      'Lemmas/KingLift.lean, and a changed-squares lemma for Spec.attacked, Lemmas/CastleSafe.lean). The full statement genMoves = legalMoves for the other pieces (pins, check evasions, pawn sets, en passant) '
@@ -60,8 +60,8 @@ prop('C16', 'proof',
      'differential on uci text, codes, parse round trips and FEN->Position->FEN/keys on every visited position',
      'FEN full-move number >= 1; ' + TIE, 'Lean 4 theorems (finite decide + lemmas) + differential correspondence', '§6 C16')
 prop('C17', 'proof',
-     'ROUND TRIP PROVED in Lean (Props/C17.lean, C17_roundtrip): for every position whose generated move list has the decidable shape genShapeB (no duplicates, castling moves are the two castling codes, '
-     'other moves move an existing piece and promote to N/B/R/Q exactly when a pawn reaches an end rank — evaluated at every position of every run through the sync field, and a consequence of C01) and EVERY generated move, '
+     'ROUND TRIP PROVED in Lean, UNCONDITIONALLY on well-formed positions (Props/C17.lean, C17_roundtrip_wf): for every Spec.wf position and EVERY generated move (the shape of the generated list the argument needs — no duplicates, castling moves are the two castling codes, '
+     'other moves move an existing piece and promote to N/B/R/Q exactly when a pawn reaches an end rank — is itself a theorem, genShapeB_of_wf / C01_move_shape, and is still evaluated at every position of every run through the sync field), '
      'parse_san(san(m)) = m: the text of san as a character list, the one SAN regex on every text shape san can print (exhaustive kernel evaluation, Lemmas/SanShapes*.lean, incl. pawn texts with a rank), '
      'and the disambiguation argument (the printed file / file+rank leaves exactly one candidate whatever other moves share piece kind and target); castling texts with + and #. '
      'Tie: differential on SAN text and parse_san(san(m)) = m for every legal move, disambiguation lab with 3-4 like pieces',
